@@ -7,3 +7,10 @@ import AnyTLS.Props.C15
 #print axioms AnyTLS.C15.zero_prefix_is_end
 #print axioms AnyTLS.C15.dgram_single_frame
 #print axioms AnyTLS.C15.initial_request_roundtrip
+#print axioms AnyTLS.C15.udp_sites_sound
+#print axioms AnyTLS.C15.relay_socket_family
+#print axioms AnyTLS.C15.ipv4_only_bind_refuted
+#print axioms AnyTLS.C15.udp_to_stream_exact
+#print axioms AnyTLS.C15.udp_tunnel_exact
+#print axioms AnyTLS.C15.timed_read_loses_datagrams
+#print axioms AnyTLS.C15.whole_buffer_pads_datagrams
